@@ -7,14 +7,17 @@ CONFIG = {
     "technique": "Lean 4: two executable models - the implementation (Rdfc10.lean, tied to rdfc10.rs by a byte-exact differential) and an "
                  "independent transcription of the W3C Recommendation (Rdfc10Spec.lean, one definition per numbered step) - run on the "
                  "same requests as the real normalize*/relabel*; the implementation's bytes are compared with the SPECIFICATION model's on every case; "
-                 "kernel-checked theorems about errors and limits; native_decide witness of the divergence",
+                 "kernel-checked theorems about errors, limits, the skip rule and the escape table; native_decide regression facts on the former witness",
     "level_text": "Proof (all inputs, all hashes/limits, kernel-checked): (impl_eq_spec_partial) on RDF datasets without self-referencing quads whose "
                   "first-degree hashes are pairwise distinct - where Hash N-Degree Quads is never entered - the model of the implementation and the "
                   "transcription of the Recommendation (4.4.3 steps 1-6, 4.5, 4.6, canonical N-Quads) produce the same bytes; (escapes_as_specified) the "
                   "escape table regenerated from _cnq.rs is the canonical N-Quads rule for every character; (unsupported_iff) Unsupported is returned "
                   "exactly for rejected predicates / quoted triples / variables; (limits_only_fail) the non-standard safeguards only ever turn a result "
-                  "into an error, never change one. Conformance beyond that fragment (4.7, 4.8: Hash Related / Hash N-Degree) is NOT a theorem: it is "
-                  "refuted (C06_witness, native_decide) and otherwise established differentially - implementation vs transcription on exhaustive "
+                  "into an error, never change one; (skip_rule_as_specified) the pruning test of the repaired smaller_path is the skip rule of 5.4.4.3/5.4.5.5 "
+                  "for all paths. Conformance beyond that fragment (4.7, 4.8: Hash Related / Hash N-Degree) is NOT a theorem (ImplEqSpec is open for the "
+                  "repaired code, refuted for the former length-first rule - both facts conditional on the flag regenerated from rdfc10.rs): the former "
+                  "24-quad witness and its family now agree with the transcription (C06_witness_agrees, C06_family_agrees, native_decide) and the rest is "
+                  "established differentially - implementation vs transcription on exhaustive "
                   "small datasets (<= 2 quads quick, <= 3 thorough, over 3 blank nodes / IRI / literal / 3 graph names), the symmetric families, the "
                   "shipped examples and random graphs.",
     "level_note": "Trusted: my offline transcription of the Recommendation of 21 May 2024 (4.4.3, 4.5-4.8). Demanded LESS where unsure: canonical N-Quads "
@@ -22,14 +25,16 @@ CONFIG = {
                   "demanded); step 2.1 is accepted in both readings (one reference per blank node of a quad - my reading - or one per occurrence - what the "
                   "code does; they differ on quads mentioning one blank node twice, the driver reports which reading matched as x.reading); the id map is "
                   "compared with the implementation model only, the specification being compared on the serialised dataset (the map is determined up to "
-                  "automorphism). Known findings: smaller_path prunes on length alone (5.4.4.3/5.4.5.5); unwrap panic on a literal predicate.",
+                  "automorphism). Both former findings (smaller_path pruning on length alone; unwrap panic on a literal predicate) are repaired in /repo "
+                  "(33fee4b, ae95823); the model follows the source through the regenerated flags Gen.smallerPathLengthFirst / Gen.predicateMustBeIri, so a "
+                  "regression flips the flags, makes C06_witness/not_implEqSpec non-vacuous again and re-opens the differential failure on corpus/C06/witness.req.",
     "tables": ["cnq_escapes", "rdfc10_smaller_path"],
     "lean_targets": ["SophiaProofs.Props.C06", "SophiaProofs.Audit.C06"],
-    "theorems": ["impl_eq_spec_partial", "escapes_as_specified", "unsupported_iff", "normalize_unsupported_iff", "limits_only_fail", "normalize_limits_only_fail", "C06_witness",
+    "theorems": ["impl_eq_spec_partial", "skip_rule_as_specified", "C06_witness_agrees", "C06_family_agrees", "escapes_as_specified", "unsupported_iff", "normalize_unsupported_iff", "limits_only_fail", "normalize_limits_only_fail", "C06_witness",
                  "C06_witness_attributed", "not_implEqSpec"],
-    "native_ok": ["C06_witness", "C06_witness_attributed", "not_implEqSpec"],
+    "native_ok": ["C06_witness", "C06_witness_attributed", "not_implEqSpec", "C06_witness_agrees", "C06_family_agrees"],
     "trivial_re": r"^st=unsupported|^h=",
-    "rule": "corpus: the 24-quad witness; shipped examples (both hashes); smaller_path family (chain length 7-11 x copies x extras, relabelled); symmetric "
+    "rule": "corpus: the 24-quad former witness; multi-edge near-twin family under 5-7 enumeration orders; shipped examples (both hashes); smaller_path family (chain length 7-11 x copies x extras, relabelled); symmetric "
             "families as C05; cross-group recursion; literals with every C0 control/DEL/quote/backslash/U+FFFE; unsupported and generalized input; "
             "limits grid; ALL datasets with <= 2 (thorough 3) quads over {3 blank nodes, IRI} x {3 blank nodes, IRI, literal} x {default, IRI, blank graph}; "
             "random graphs <= 6 blank nodes; non-trivial = not Unsupported",
